@@ -525,6 +525,10 @@ func (fc *FuncCtx) evalUnary(st *State, x *ast.UnaryExpr) Term {
 			return Term{S: "(- (- " + v.S + ") 1)", T: t}
 		}
 	case token.ARROW:
+		if strings.Contains(" "+fc.nonblockingOpt()+" ", " * ") {
+			name := types.ExprString(x.X)
+			fc.oblige(st, "chan.nonblocking", sanitize(name), strconv.FormatBool(fc.inNonBlocking), x, "the receive from "+name+" must not block this function: it has to be a case of a select with a default clause")
+		}
 		return fc.chanRecv(st, x)
 	}
 	fc.fail(x, "unsupported unary operator %s", x.Op)
@@ -1191,6 +1195,18 @@ func (fc *FuncCtx) chanRecvOK(st *State, x *ast.UnaryExpr, ok string) Term {
 	fc.eval(st, x.X)
 	v := fc.fresh("recv", t)
 	fc.chanRecvAssume(st, x.X, v, ok, x)
+	// `opt countrecvs <chan>`: ghost recvs_<chan> counts the values taken from that package-level channel
+	if fc.contract != nil && fc.contract.Opts["countrecvs"] != "" {
+		if key := fc.globalKey(x.X); key != "" {
+			name := key[strings.LastIndex(key, ".")+1:]
+			for _, want := range strings.Fields(fc.contract.Opts["countrecvs"]) {
+				if want == name {
+					cur := st.ghost["recvs_"+name]
+					st.ghost["recvs_"+name] = mkMath("(+ " + cur.S + " (ite " + ok + " 1 0))")
+				}
+			}
+		}
+	}
 	return v
 }
 
